@@ -872,7 +872,8 @@ fn c13_modes(req: &Value) -> Value {
 		let pk_mode = fm.pk_file_mode;
 		let r1 = rt.block_on(crate::storage::write_certificate(&fm, b"certificate"));
 		let r2 = rt.block_on(crate::storage::set_keypair(&fm, &key));
-		let acc = make_account(&fm, "m", 1, 1, 0, false, &keys);
+		#[allow(unused_mut)]
+		let mut acc = make_account(&fm, "m", 1, 1, 0, false, &keys);
 		let r3 = rt.block_on(acc.save());
 		let cp = rt
 			.block_on(crate::storage::get_certificate_path(&fm))
@@ -1475,7 +1476,8 @@ fn c11_persist(req: &Value) -> Value {
 						let fm = plain_fm(&d, name, "x");
 						let mut keys = vec![cur.clone()];
 						keys.extend(past_pool.iter().cloned());
-						let acc = make_account(&fm, name, 2, n_ep, n_past, eab, &keys);
+						#[allow(unused_mut)]
+						let mut acc = make_account(&fm, name, 2, n_ep, n_past, eab, &keys);
 						if let Err(e) = rt.block_on(acc.save()) {
 							bad.push(json!({"oracle": "restart-roundtrip", "shape": [kt.to_string(), n_past, n_ep, eab, ni], "detail": format!("save failed: {}", e.message)}));
 							continue;
